@@ -88,6 +88,11 @@ def build(cinco, d, root=None, with_default=True):
         return F.BoolField(**kw)
     if kind == "bytes":
         return F.BytesField(encoding=d["encoding"], **kw)
+    if kind == "secure":
+        kw.pop("sensitive", None)
+        return F.SecureField(method=d["method"], sensitive=bool(d.get("sensitive", True)), **kw)
+    if kind == "challenge":
+        return F.ChallengeField(d["alg"], **kw)
     if kind == "list":
         return F.ListField(build(cinco, d["item"], root), **kw)
     if kind == "dict":
